@@ -14,7 +14,7 @@ EXTENDS Naturals, Sequences, FiniteSets, TLC, Json
 CONSTANTS SignInitMsg,      \* TRUE = RFC 7296 2.15 (AUTH covers the signer's own IKE_SA_INIT message); FALSE = a weakened protocol (to see the attack)
           CredIOk,          \* the responder is configured with the initiator's real credential and identity
           CredROk,          \* the initiator is configured with the responder's real credential and identity
-          Msg34Rewrites     \* what an attacker who owns both key sets does to the AUTH payloads: subset of {"none","reflect","replay","swapid","method","flip","empty","prefix","extend"}
+          Msg34Rewrites     \* what an attacker who owns both key sets does to the AUTH payloads: subset of {"none","reflect","replay","swapid","method","flip","empty","prefix","extend","pskempty","pskid"}
 
 Fields == {"ni", "nr", "kei", "ker", "spii", "spir", "offer", "chosen"}
 ReqFields == {"ni", "kei", "spii", "offer"}
